@@ -100,8 +100,15 @@ def lpRows (S : Nat) (p : Posed) : List Row :=
   ⟨List.replicate S 1 ++ [0, 0], .eq, 1⟩ ::
   (p.rows.map (fun g => ⟨g ++ [-1, 1], .le, 0⟩) ++ [⟨p.wit ++ [-1, 0], .eq, 0⟩])
 
-/-- objective of the witness LP: maximise column `S + 1` (delta); column `S` (K) is the only free variable -/
+/-- objective of the witness LP: maximise column `S + 1` (delta) -/
 def lpObjective (S : Nat) : Vec := List.replicate (S + 1) 0 ++ [1]
+
+/-- does the constructor make `delta` a free variable (regenerated from the source)?  As found it is lp_solve's default
+    `delta ≥ 0`: the LP is then infeasible exactly when there is no witness; with `delta` free it is always feasible. -/
+def deltaFree : Bool := Gen.C12Src.witnessDeltaFree
+
+/-- the free columns of the witness LP: `K` (column `S`), and `delta` (column `S + 1`) in the repaired reading -/
+def lpFree (S : Nat) : List Nat := if deltaFree then [S, S + 1] else [S]
 
 /-- rows of `LPInterpolation`'s LP over the `k + 1` columns `c_0 … c_{k-1}, K`: per non-zero state `Σ c_j p_j[s] ≤ point[s]`
     (K coefficient `+0.0`), then `Σ c_j gain_j − K = 0` -/
